@@ -337,7 +337,7 @@ def state_witnesses(parser=None):
     edges = {}
     for s, row in lt.lr_action.items():
         for k, v in row.items():
-            if v > 0:
+            if v is not None and v > 0:      # None: an explicit error entry (%nonassoc)
                 edges.setdefault(s, []).append((k, v))
     for s, row in lt.lr_goto.items():
         for k, v in row.items():
